@@ -2,7 +2,43 @@
 
 U = "pyttb.pyttb_utils."
 
+SP = "pyttb.sptensor.sptensor."
+
 PLAN = {
+    "C03": dict(
+        level="proof",
+        functions=[SP + "__mul__", U + "tt_ismember_rows"],
+        standin=["c03.binary", "c03.unary"],
+        proved=["sptensor * sptensor and sptensor * scalar: Den(result) = product of the denotations, result well-formed, for all orders/shapes/nnz/stored orders; shape mismatch raises"],
+        bounded=["all other operators (+ - / logical_* == != < <= > >=, scalar / dense / sparse right-hand sides, unary ops) against dense NumPy semantics on every pair of patterns of small shapes"],
+        explanation="C03: deductive proof for the operators under contract; every operator is additionally swept by the bounded stand-in.",
+        budget_quick=60, budget_thorough=900,
+    ),
+    "C06": dict(
+        level="proof",
+        functions=[SP + "__mul__", U + "tt_ismember_rows"],
+        standin=["c06.unary_wf_order", "c06.binary_order", "c03.binary"],
+        proved=["well-formedness of sptensor * sptensor / scalar results (one value per subscript, in range, pairwise distinct, no explicit zero) independent of stored order (the contract does not mention order)"],
+        bounded=["well-formedness and order independence of every other public sparse operation: all n! stored orders for <= 4 nonzeros"],
+        explanation="C06: WF obligations on the functions under contract; bounded stand-in for the rest.",
+        budget_quick=60, budget_thorough=600,
+    ),
+    "C07": dict(
+        level="other",
+        functions=[],
+        standin=["c07.index_maps"],
+        bounded=["permute / reshape / squeeze on dense, sparse, Kruskal, Tucker holders: all N! orders, all factorisations, subset reshape, round trips (shapes <= 12 cells)"],
+        explanation="C07: bounded stand-in only so far (contracts for sptensor.permute/reshape/squeeze pending).",
+        budget_quick=40, budget_thorough=300,
+    ),
+    "C01": dict(
+        level="other",
+        functions=[],
+        standin=["c01.dense_sparse", "c01.matricize", "c01.structured_to_dense"],
+        bounded=["dense<->sparse, tensor<->tenmat, sptensor<->sptenmat for every ordered mode partition, Kruskal/Tucker/sum -> dense"],
+        explanation="C01: bounded stand-in only so far.",
+        budget_quick=40, budget_thorough=300,
+    ),
     "C17": dict(
         level="proof",
         functions=[U + "tt_dimscheck", U + "tt_ismember_rows", U + "tt_sub2ind", U + "tt_ind2sub"],
@@ -21,4 +57,8 @@ PLAN = {
         explanation="C17: proof obligations over the real ASTs of the index/row helpers plus a bounded stand-in for the helpers not yet under contract.",
         budget_quick=40, budget_thorough=300,
     ),
+}
+
+NOT_APPLICABLE = {
+    "C11": "CP-APR: the clauses are about the numerical trajectory of three iterative floating-point optimisers (likelihood no worse than the start, KKT diagnostics, objective equal to a recomputed log-likelihood); no per-function contract over NumPy glue decides them, and a bounded run would be testing, not this technique. Its frame clause (data and caller's guess unmodified) is decided under C05.",
 }
